@@ -230,7 +230,7 @@ def queries(r, frames: List[Any], tol: int) -> List[Tuple[int, str]]:
 
 
 def run(ctx: Ctx) -> None:
-    import perception_eval.manager._evaluation_manager_base as base_mod
+    import perception_eval.common.dataset as base_mod  # (the module that defines the functions called below)
 
     with Taps(ctx) as taps:
         install(taps, ctx)
